@@ -9,24 +9,13 @@ import EqsigVerif.Lemmas.Im.Dur
 `im` (`se=True`); `sigDurVals a … = sigDurSeries (cumsum a²) …` (array variant), `sigDur a dt … =
 sigDurSeries (ariasCore dt a) dt …` (default Arias measure, the constant `π/(2·9.81) > 0` cancels:
 `arias_constant_cancels`), any other `im` is a user supplied measure.  `durOf` is the `se=False` form.
+`Between im s e tot i` : `i < len im ∧ s·tot < im[i] < e·tot`; `Exceeds a thr i` : `i < len a ∧ thr < |a[i]|`
+(spec predicates, defined in `Lemmas/Im/Dur.lean`).
 -/
 set_option linter.unusedSectionVars false
 set_option linter.unusedVariables false
 namespace EqsigVerif.Props.C10
 open EqsigVerif.Np EqsigVerif.Wire EqsigVerif.Model.Im EqsigVerif.Lemmas.Im
-
-/-- sample `i` of the cumulative series lies strictly between the two fractions of the total -/
-def Between (im : List ℚ) (s e tot : ℚ) (i : Nat) : Prop :=
-  ∃ h : i < im.length, s * tot < im[i] ∧ im[i] < e * tot
-
-theorem isFirstLast_sigMask_iff (im : List ℚ) (s e tot : ℚ) (i0 i1 : Nat) :
-    IsFirstLast (sigMask s e tot) im i0 i1 ↔
-      Between im s e tot i0 ∧ Between im s e tot i1 ∧ ∀ j, Between im s e tot j → i0 ≤ j ∧ j ≤ i1 := by
-  unfold IsFirstLast Between
-  simp only [sigMask_iff]
-  constructor
-  · rintro ⟨h0, h1, h2⟩; exact ⟨h0, h1, fun j ⟨hj, hb⟩ => h2 j hj hb⟩
-  · rintro ⟨h0, h1, h2⟩; exact ⟨h0, h1, fun j hj hb => h2 j ⟨hj, hb⟩⟩
 
 /-! ## C10.a specification -/
 
@@ -120,7 +109,8 @@ theorem bounds (im : List ℚ) (dt s e ts te : ℚ) (hdt : 0 ≤ dt)
   have : i1 ≤ im.length - 1 := by omega
   exact_mod_cast this
 
-example : sigDurSeries [0, 1, 3, 6, 10] (1/2) (1/20) (19/20) = .ok (1/2, 3/2) := by decide +kernel
+example : (0 : ℚ) ≤ 1/2 ∧ (1/2 : ℚ) ≤ 3/2 ∧ (3/2 : ℚ) ≤ ((([0, 1, 3, 6, 10] : List ℚ).length - 1 : Nat) : ℚ) * (1/2) :=
+  bounds [0, 1, 3, 6, 10] (1/2) (1/20) (19/20) (1/2) (3/2) (by norm_num) (by decide +kernel)
 
 /-! ## C10.c amplitude scaling -/
 
@@ -204,6 +194,10 @@ theorem widening (im : List ℚ) (dt s e s' e' : ℚ) (hdt : 0 ≤ dt)
 example : sigDurSeries [0, 1, 3, 6, 10] (1/2) (1/4) (3/4) = .ok (1, 3/2) ∧
     sigDurSeries [0, 1, 3, 6, 10] (1/2) (1/20) (19/20) = .ok (1/2, 3/2) := by decide +kernel
 
+example : ∃ ts' te', sigDurSeries [0, 1, 3, 6, 10] (1/2) (1/20) (19/20) = .ok (ts', te') ∧ ts' ≤ 1 ∧ (3/2 : ℚ) ≤ te' :=
+  widening [0, 1, 3, 6, 10] (1/2) (1/4) (3/4) (1/20) (19/20) (by norm_num)
+    (by intro tot h; simp at h; subst h; norm_num) (by norm_num) (by norm_num) 1 (3/2) (by decide +kernel)
+
 /-- C10.e, array variant -/
 theorem widening_vals (a : List ℚ) (dt s e s' e' : ℚ) (hdt : 0 ≤ dt) (hs : s' ≤ s) (he : e ≤ e')
     (ts te : ℚ) (h : sigDurVals a dt s e = .ok (ts, te)) :
@@ -225,18 +219,6 @@ example : sigDur [1, 2, 3, 4, 5] (1/2) (1/4) (3/4) = .ok (3/2, 3/2) ∧
     sigDur [1, 2, 3, 4, 5] (1/2) (1/20) (19/20) = .ok (1/2, 3/2) := by decide +kernel
 
 /-! ## C10.f bracketed duration -/
-
-/-- sample `i` exceeds the threshold in absolute value -/
-def Exceeds (a : List ℚ) (thr : ℚ) (i : Nat) : Prop := ∃ h : i < a.length, thr < |a[i]|
-
-theorem isFirstLast_bracMask_iff (a : List ℚ) (thr : ℚ) (i0 i1 : Nat) :
-    IsFirstLast (bracMask thr) a i0 i1 ↔
-      Exceeds a thr i0 ∧ Exceeds a thr i1 ∧ ∀ j, Exceeds a thr j → i0 ≤ j ∧ j ≤ i1 := by
-  unfold IsFirstLast Exceeds
-  simp only [bracMask_iff]
-  constructor
-  · rintro ⟨h0, h1, h2⟩; exact ⟨h0, h1, fun j ⟨hj, hb⟩ => h2 j hj hb⟩
-  · rintro ⟨h0, h1, h2⟩; exact ⟨h0, h1, fun j hj hb => h2 j ⟨hj, hb⟩⟩
 
 /-- C10.f `bracdur_spec`: if `i0` / `i1` are the first / last sample with `|a| > thr`, then `se=True` returns
 `(i0·dt, i1·dt)` and `se=False` their difference -/
